@@ -13,6 +13,9 @@ Driver for C07 (assembly-level optimisations). Cases (see `harness/src/bin/sv_c0
   checker is only demanded when the input satisfies `flagsLocal` (flag registers are read by the op
   right after the one that sets them — what compiled code does; see `C07_flags_guard_insufficient`)
   and has no duplicate label.
+* `addr <constidx|constprop|optimize0> <before> ;; ok <after>`: both lists are EXECUTED on a small interpreter for
+  the address-arithmetic op subset; prop = same logged values, trap and final memory (per-list validation of
+  the two passes that are not modelled).
 * `round <0|1> <before> ;; ok <after>`: prop = the round loop never returns a longer op list (level 1).
 * `prog <pkg> <test> <profile> ;; opt=<digest> noopt=<digest> …`: prop = the digests are equal.
 -/
@@ -144,11 +147,130 @@ def answerProg (c : List String) (i : List String) : String :=
     s!"prog agree=1 prop={b01 (a == b)} profile={profile} state={stc} panic={b01 ((get kv "panic").getD "-" != "-")} logs={b01 ((get kv "nlogs").getD "0" != "0")} build={b01 (test != "@build")}"
   | _, _, _ => "bad-case agree=0 prop=1"
 
+
+/-! ### executing address-arithmetic op lists (the `addr` lines)
+
+A tiny interpreter for exactly the op subset of these lists, read from the ops' `Display` text
+(7th field): 64-bit registers, a byte-addressed memory (unwritten bytes have an address-dependent
+value, so a wrong address is seen), arithmetic overflow traps, `log`/`ret` are the observations. -/
+
+structure IState where
+  regs : List (String × Nat) := []
+  mem : List (Nat × Nat) := []
+  out : List Nat := []
+  trap : Option String := none
+  done : Bool := false
+  unsupported : Bool := false
+
+def w64 : Nat := 18446744073709551616
+
+def initReg (name : String) : Nat :=
+  match name with
+  | "$zero" => 0
+  | "$one" => 1
+  | "$sp" => 65536
+  | "$$locbase" => 65536
+  | "$hp" => 50331648
+  | "$$retv" => 4242
+  | _ => match name.toList with
+    | '$' :: 'r' :: ds => 1048576 + 65536 * ((String.ofList ds).toNat?.getD 77)
+    | _ => 12345
+
+def IState.get (st : IState) (r : String) : Nat := (st.regs.lookup r).getD (initReg r)
+
+def IState.set (st : IState) (r : String) (v : Nat) : IState :=
+  if r == "$zero" || r == "$one" then st
+  else { st with regs := (r, v) :: st.regs.filter fun e => e.1 != r }
+
+/-- unwritten memory: words below 2^24 (so that index arithmetic on loaded values does not overflow) -/
+def memByte (st : IState) (a : Nat) : Nat :=
+  (st.mem.lookup a).getD (if a % 8 < 5 then 0 else (a * 31 + 7) % 251)
+
+def setByte (st : IState) (a v : Nat) : IState :=
+  { st with mem := (a, v % 256) :: st.mem.filter fun e => e.1 != a }
+
+def loadWord (st : IState) (a : Nat) : Nat :=
+  (List.range 8).foldl (fun acc i => acc * 256 + memByte st (a + i)) 0
+
+def storeWord (st : IState) (a v : Nat) : IState :=
+  (List.range 8).foldl (fun s i => setByte s (a + i) (v / 256 ^ (7 - i))) st
+
+def immOf (t : String) : Option Nat :=
+  match t.toList with
+  | 'i' :: ds => (String.ofList ds).toNat?
+  | _ => none
+
+def arith (st : IState) (d : String) (v : Int) : IState :=
+  if v < 0 || v ≥ (w64 : Int) then { st with trap := some "overflow", done := true } else st.set d v.toNat
+
+def execAsm (st : IState) (asm : String) : IState :=
+  if st.done || st.unsupported then st else
+  let ts := asm.splitOn "_"
+  match ts with
+  | [l] => if l.startsWith "." || l == "noop" then st else { st with unsupported := true }
+  | "noop" :: _ => st
+  | ["movi", d, i] => match immOf i with
+    | some k => st.set d k
+    | none => { st with unsupported := true }
+  | ["move", d, a] => st.set d (st.get a)
+  | ["add", d, a, b] => arith st d ((st.get a : Int) + st.get b)
+  | ["sub", d, a, b] => arith st d ((st.get a : Int) - st.get b)
+  | ["mul", d, a, b] => arith st d ((st.get a : Int) * st.get b)
+  | ["addi", d, a, i] => match immOf i with
+    | some k => arith st d ((st.get a : Int) + k)
+    | none => { st with unsupported := true }
+  | ["subi", d, a, i] => match immOf i with
+    | some k => arith st d ((st.get a : Int) - k)
+    | none => { st with unsupported := true }
+  | ["muli", d, a, i] => match immOf i with
+    | some k => arith st d ((st.get a : Int) * k)
+    | none => { st with unsupported := true }
+  | ["lw", d, b, i] => match immOf i with
+    | some k => st.set d (loadWord st (st.get b + 8 * k))
+    | none => { st with unsupported := true }
+  | ["lb", d, b, i] => match immOf i with
+    | some k => st.set d (memByte st (st.get b + k))
+    | none => { st with unsupported := true }
+  | ["sw", b, v, i] => match immOf i with
+    | some k => storeWord st (st.get b + 8 * k) (st.get v)
+    | none => { st with unsupported := true }
+  | ["sb", b, v, i] => match immOf i with
+    | some k => setByte st (st.get b + k) (st.get v)
+    | none => { st with unsupported := true }
+  | "log" :: rs => { st with out := st.out ++ rs.map st.get }
+  | ["ret", a] => { st with out := st.out ++ [st.get a], done := true }
+  | "fncall" :: _ => st.set "$$retv" 777
+  | _ => { st with unsupported := true }
+
+def asmOf (opText : String) : String := ((opText.splitOn ":")[6]?).getD "?"
+
+def runAsm (ops : String) : IState :=
+  if ops == "-" then {} else (ops.splitOn "|").foldl (fun st t => execAsm st (asmOf t)) {}
+
+def observe (st : IState) : List Nat × Option String × List Nat :=
+  (st.out, st.trap, sortNats (st.mem.map fun e => e.1 * 256 + e.2))
+
+def answerAddr (c : List String) (i : List String) : String :=
+  match c, i with
+  | [pass, before], "ok" :: after :: _ =>
+    let a := runAsm before
+    let b := runAsm after
+    let n := (before.splitOn "|").length
+    let changed := before != after
+    if a.unsupported || b.unsupported then
+      s!"addr agree=1 prop=1 pass={pass} exec=unsupported changed={b01 changed} size={sizeClass n}"
+    else
+      let same := observe a == observe b
+      s!"addr agree=1 prop={b01 same} pass={pass} exec={if a.trap.isSome then "trap" else "ok"} changed={b01 changed} stores={b01 (!a.mem.isEmpty)} size={sizeClass n}"
+  | [pass, _], "panic" :: _ => s!"addr agree=1 prop=1 pass={pass} exec=panic"
+  | _, _ => "bad-case agree=0 prop=1"
+
 def answer (line : String) : String :=
   let (c, i) := splitCase line
   match c with
   | "pass" :: rest => answerPass rest i
   | "round" :: rest => answerRound rest i
+  | "addr" :: rest => answerAddr rest i
   | "prog" :: rest => answerProg rest i
   | _ => "bad-op agree=0 prop=0"
 
